@@ -302,7 +302,7 @@ func Run(c *engine.Ctx) {
 						if side == 1 {
 							mut, other, on = src, cp, "copy"
 						}
-						before := gen.Snap(other)
+						before, beforeCap := gen.Snap(other), gen.SnapCap(other)
 						if !safeMutate(devs[di], mut) {
 							t.Outcome("path-not-applicable")
 							return nil
@@ -310,6 +310,9 @@ func Run(c *engine.Ctx) {
 						t.Validated(1)
 						if after := gen.Snap(other); after != before {
 							return engine.Violate("copy-independent", k.Name, "%s.Copy(): mutating %s of the %s changed the %s: %s", k.Name, devs[di].Label, []string{"copy", "source"}[side], on, gen.SnapDiff(before, after))
+						}
+						if after := gen.SnapCap(other); after != beforeCap {
+							return engine.Violate("copy-independent", "beyond-length:"+k.Name, "%s.Copy(): mutating %s of the %s wrote into the %s's memory beyond a slice's length (shared backing array): %s", k.Name, devs[di].Label, []string{"copy", "source"}[side], on, gen.SnapDiff(beforeCap, after))
 						}
 						t.State(fmt.Sprintf("copyind:%s:%s:%s:%d", k.Name, bn, devs[di].Label, side))
 						t.Outcome("copy-independent-ok")
@@ -357,9 +360,10 @@ func Run(c *engine.Ctx) {
 							r := apply(a, b)
 							t.Transitions(1)
 							all := []*sbom.NodeList{r, a, b}
-							var before [3]string
+							var before, beforeCap [3]string
 							for i := range all {
 								before[i] = gen.Snap(all[i])
+								beforeCap[i] = gen.SnapCap(all[i])
 							}
 							if !safeMutate(devs[di], all[ti]) {
 								t.Outcome("path-not-applicable")
@@ -376,6 +380,9 @@ func Run(c *engine.Ctx) {
 								}
 								if after := gen.Snap(all[i]); after != before[i] {
 									return engine.Violate("result-independent", opn, "%s(%s,%s): mutating %s of %s changed %s: %s", opn, an, bn, devs[di].Label, tn, targets[i], gen.SnapDiff(before[i], after))
+								}
+								if after := gen.SnapCap(all[i]); after != beforeCap[i] {
+									return engine.Violate("result-independent", "beyond-length:"+opn, "%s(%s,%s): mutating %s of %s wrote into the memory of %s beyond a slice's length (shared backing array): %s", opn, an, bn, devs[di].Label, tn, targets[i], gen.SnapDiff(beforeCap[i], after))
 								}
 							}
 							t.State(fmt.Sprintf("%s:%s:%s:%s:%s", opn, an, bn, tn, devs[di].Label))
